@@ -897,3 +897,104 @@ var y = func() int { held.F++; return 0 }() // want IMM03
 		Unrelated(),
 	}}
 }
+
+// ConfigMatters is a program whose diagnostics depend on every configuration option: under
+// scan-tests=true and exclude-paths=gen (the configuration its want markers are written for) the package under
+// gen/ is inert — no diagnostic in it, its annotations unread — and _test.go files are analysed. Under the
+// empty configuration (scan-tests off, nothing excluded) almost every marker would be different, so an action that
+// works with a configuration other than the one given shows at once.
+func ConfigMatters() *prog.Program {
+	return &prog.Program{Pkgs: []prog.Pkg{
+		{Path: "ex.com/m/gen/model", Files: []prog.File{{Name: "model.go", Src: `package model
+
+// Money is immutable, but this file is excluded by configuration.
+// @immutable
+// @constructor NewMoney
+type Money struct{ Cents int }
+
+func NewMoney() *Money { return &Money{} }
+
+// Fake is test-only.
+// @testonly
+func Fake() *Money { return NewMoney() }
+
+func bad(m *Money) {
+	m.Cents = 1
+	_ = Money{}
+}
+`}}},
+		{Path: "ex.com/m/lib", Files: []prog.File{{Name: "lib.go", Src: `package lib
+
+// L is immutable.
+// @immutable
+// @constructor NewL
+type L struct{ N int }
+
+func NewL() *L { return &L{} }
+
+// Probe is test-only.
+// @testonly
+func Probe() int { return 0 }
+
+func bad(l *L) {
+	l.N = 1 // want IMM01
+}
+`}, {Name: "lib_test.go", Src: `package lib
+
+func badInTest(l *L) {
+	l.N++ // want IMM03
+	_ = L{} // want CTOR01
+	Probe()
+}
+`}}},
+		{Path: "ex.com/m/app", Files: []prog.File{{Name: "app.go", Src: `package app
+
+import (
+	"ex.com/m/gen/model"
+	"ex.com/m/lib"
+)
+
+func run(m *model.Money, l *lib.L) {
+	m.Cents = 2
+	_ = model.Money{}
+	_ = model.Fake()
+	l.N = 2 // want IMM01
+	_ = lib.L{} // want CTOR01
+	lib.Probe() // want TONL02
+}
+`}, {Name: "app_test.go", Src: `package app
+
+import "ex.com/m/lib"
+
+func inTest(l *lib.L) {
+	l.N += 1 // want IMM02
+	lib.Probe()
+}
+`}}},
+		{Path: "ex.com/m/other", Files: []prog.File{{Name: "other.go", Src: `package other
+
+// O is immutable.
+// @immutable
+type O struct{ V int }
+
+func touch(o *O) {
+	o.V = 1 // want IMM01
+}
+`}, {Name: "other_test.go", Src: `package other
+
+func touchInTest(o *O) {
+	o.V = 2 // want IMM01
+}
+`}}},
+		{Path: "ex.com/m/gen/extra", Files: []prog.File{{Name: "extra.go", Src: `package extra
+
+// E is immutable, in an excluded file.
+// @immutable
+type E struct{ V int }
+
+func touch(e *E) {
+	e.V = 1
+}
+`}}},
+	}}
+}
